@@ -150,14 +150,40 @@ dispatch_walltime(const struct timespec *inval, int64_t delta)
 {
 	int64_t nsec;
 	if (inval) {
-		nsec = (int64_t)_dispatch_timespec_to_nano(*inval);
+		if (os_mul_overflow((int64_t)inval->tv_sec, (int64_t)NSEC_PER_SEC,
+				&nsec) || os_add_overflow(nsec, (int64_t)inval->tv_nsec,
+				&nsec)) {
+			// More than 2^63ns away from the epoch.
+			uint64_t unsec;
+			if (inval->tv_sec < 0) {
+				return (dispatch_time_t)-2ll; // in the past for any delta
+			}
+			if (delta >= 0 || os_mul_overflow((uint64_t)inval->tv_sec,
+					(uint64_t)NSEC_PER_SEC, &unsec) || os_add_overflow(unsec,
+					(uint64_t)inval->tv_nsec, &unsec)) {
+				return DISPATCH_TIME_FOREVER;
+			}
+			unsec -= 0 - (uint64_t)delta; // cannot underflow: unsec >= 2^63
+			if (unsec >= DISPATCH_TIME_MAX_VALUE) {
+				return DISPATCH_TIME_FOREVER;
+			}
+			nsec = (int64_t)unsec;
+			delta = 0;
+		}
 	} else {
 		nsec = (int64_t)_dispatch_get_nanoseconds();
 	}
-	nsec += delta;
+	if (os_add_overflow(nsec, delta, &nsec)) {
+		return delta < 0 ? (dispatch_time_t)-2ll : DISPATCH_TIME_FOREVER;
+	}
 	if (nsec <= 1) {
 		// -1 is special == DISPATCH_TIME_FOREVER == forever
-		return delta >= 0 ? DISPATCH_TIME_FOREVER : (dispatch_time_t)-2ll;
+		return (dispatch_time_t)-2ll;
+	}
+	if ((uint64_t)nsec >= DISPATCH_TIME_MAX_VALUE) {
+		// not representable as a wall time: -nsec would no longer have the
+		// two top bits set and would be decoded as a time on another clock
+		return DISPATCH_TIME_FOREVER;
 	}
 	return (dispatch_time_t)-nsec;
 }
